@@ -10,9 +10,11 @@
    The model functions are tied to the Go code by the correspondence check on every run; the boolean
    form of these laws ([contract], Mesh/Case.v) is additionally evaluated on the implementation's own
    output, and [contract_sound] below shows that the model satisfies that boolean form on all inputs. *)
-From Coq Require Import List NArith ZArith Bool Arith Permutation.
-From PF Require Import Mesh.Pure Mesh.PureLemmas Mesh.PureProofs Mesh.Case Mesh.PureLaws Mesh.AreaLaws.
+From Coq Require Import List NArith ZArith Bool Arith Permutation QArith Qcanon.
+From PF Require Import Mesh.Pure Mesh.PureLemmas Mesh.PureProofs Mesh.Case Mesh.PureLaws Mesh.AreaLaws Mesh.Smooth Mesh.SmoothProofs.
 Import ListNotations.
+Close Scope Qc_scope.
+Close Scope Q_scope.
 
 (* ================================================================ THE PROPERTY, stated once
    Sentence 1: "Operations that only change layout or connectivity (unweld, weld-by-position, remove
@@ -286,7 +288,78 @@ Theorem center_only_attr : forall a m d, lookup (3%N, a) (attrs m) = Some d -> d
 Proof. exact PureLaws.center_only_attr. Qed.
 Print Assumptions center_only_attr.
 
-(* normalise / smooth normals / flat normals / Laplacian / scale-along-normal produce float values:
+(* ------------------------------------------------------------------ value laws over Q: Laplacian and centre
+   Mesh/Smooth.v models LaplacianSmooth and CenterFloat3Attribute on ONE coordinate (the three evolve
+   independently) over the canonical rationals Qc: [neighbours t idx v] is the duplicate-free neighbour set of
+   VertexNeighborTable, [lap_sweep] the in-place (Gauss-Seidel) sweep over the vertices in order,
+   [laplacian_mesh t idx f k d] k sweeps with factor f.  On every run the implementation's output values
+   are handed to Coq as exact dyadic rationals and compared with [laplacian_mesh] (relative 1e-9, case CLap). *)
+
+(* the stated map: vertex v moves towards the MEAN OF ITS DISTINCT NEIGHBOURS by the factor f; it sees the
+   values already updated in this sweep for the vertices before it; a vertex without neighbours stays *)
+Theorem laplacian_spec : forall nb f d v, (v < length d)%nat -> nb v <> [] ->
+  nth v (lap_sweep nb f d) (Q2Qc 0) =
+  (nth v d (Q2Qc 0) +
+   (mean (map (fun j => if j <? v then nth j (lap_sweep nb f d) (Q2Qc 0) else nth j d (Q2Qc 0)) (nb v))
+    - nth v d (Q2Qc 0)) * f)%Qc.
+Proof. exact lap_sweep_gauss_seidel. Qed.
+Print Assumptions laplacian_spec.
+
+Theorem laplacian_iterates : forall nb f k d, laplacian nb f (S k) d = lap_sweep nb f (laplacian nb f k d).
+Proof. exact laplacian_S. Qed.
+Print Assumptions laplacian_iterates.
+
+(* the neighbour sets: duplicate-free, symmetric, exactly the linked vertices, in range of the mesh *)
+Theorem neighbours_spec : forall t idx v,
+  NoDup (neighbours t idx v)
+  /\ (forall w, In w (neighbours t idx v) <->
+        exists a b, In (a, b) (links t idx) /\ ((a = v /\ b = w) \/ (b = v /\ a = w)))
+  /\ (forall w, In w (neighbours t idx v) <-> In v (neighbours t idx w))
+  /\ (forall n, Forall (fun i => (i < n)%nat) idx -> Forall (fun j => (j < n)%nat) (neighbours t idx v)).
+Proof.
+  intros t idx v. split; [apply neighbours_NoDup|]. split; [intros w; apply neighbours_iff|].
+  split; [intros w; apply neighbours_sym|]. intros n H. apply neighbours_range, H.
+Qed.
+Print Assumptions neighbours_spec.
+
+(* laws: unreferenced vertices never move; factor 0 is the identity; the map is linear in scale and
+   equivariant under translation (hence commutes with every affine change of units x |-> c x + s);
+   constant fields are fixed; for 0 <= f <= 1 every value stays within the bounds of the input *)
+Theorem laplacian_laws : forall t idx f k d, Forall (fun i => (i < length d)%nat) idx ->
+  (forall v, ~ In v idx -> nth v (laplacian_mesh t idx f k d) (Q2Qc 0) = nth v d (Q2Qc 0))
+  /\ laplacian_mesh t idx (Q2Qc 0) k d = d
+  /\ (forall c, laplacian_mesh t idx f k (map (Qcmult c) d) = map (Qcmult c) (laplacian_mesh t idx f k d))
+  /\ (forall s, laplacian_mesh t idx f k (map (fun x => (x + s)%Qc) d)
+              = map (fun x => (x + s)%Qc) (laplacian_mesh t idx f k d))
+  /\ (forall c, (forall x, In x d -> x = c) -> laplacian_mesh t idx f k d = d)
+  /\ ((Q2Qc 0 <= f)%Qc -> (f <= 1)%Qc ->
+      forall x, In x (laplacian_mesh t idx f k d) -> (lmin d <= x <= lmax d)%Qc).
+Proof.
+  intros t idx f k d R.
+  split; [intros v Hv; apply laplacian_mesh_unreferenced, Hv|].
+  split; [apply laplacian_factor_0|].
+  split; [intros c; apply laplacian_mesh_scale|].
+  split; [intros s; apply laplacian_mesh_shift, R|].
+  split; [intros c Hc; apply (laplacian_mesh_const t idx f k d R c Hc)|].
+  intros F0 F1 x Hx. apply (laplacian_mesh_within_bounds t idx f k d x F0 F1 R Hx).
+Qed.
+Print Assumptions laplacian_laws.
+
+(* centre: subtract the midpoint of the bounds - afterwards the bounds are symmetric about 0; invariant under
+   translation of the input, linear under non-negative scaling, idempotent *)
+Theorem centre_laws : forall d,
+  (d <> [] -> (lmin (centre d) + lmax (centre d))%Qc = Q2Qc 0)
+  /\ (forall t, centre (map (fun x => (x + t)%Qc) d) = centre d)
+  /\ (forall c, (Q2Qc 0 <= c)%Qc -> centre (map (Qcmult c) d) = map (Qcmult c) (centre d))
+  /\ centre (centre d) = centre d.
+Proof.
+  intros d. split; [apply centre_symmetric|]. split; [intros t; apply centre_shift|].
+  split; [intros c Hc; apply centre_scale, Hc|apply centre_idempotent].
+Qed.
+Print Assumptions centre_laws.
+
+(* normalise / smooth normals / flat normals / scale-along-normal (and Laplacian along an axis, whose step is
+   scaled by the irrational |axis| / ||axis||) produce float values outside Q:
    their VALUE maps are compared harness-side (1e-9); their frame law is [frame_ok] of Mesh/Case.v,
    evaluated in Coq on the implementation's output (the result with the target attribute removed must
    equal the input with it removed). *)
